@@ -4,6 +4,8 @@
 mod common;
 mod small;
 mod tables;
+mod position;
+mod posprops;
 
 use common::Out;
 
@@ -27,6 +29,14 @@ fn main() {
         "c09" => tables::c09(&mut out, thorough),
         "c08" => tables::c08(&mut out, thorough),
         "c04keys" => tables::c04keys(&mut out, thorough),
+        "c01" => posprops::c01(&mut out, thorough),
+        "c02" => posprops::c02(&mut out, thorough),
+        "c03" => posprops::c03(&mut out, thorough),
+        "c04" => posprops::c04(&mut out, thorough),
+        "c05" => posprops::c05(&mut out, thorough),
+        "c06" => posprops::c06(&mut out, thorough),
+        "c07" => posprops::c07(&mut out, thorough),
+        "c10" => posprops::c10(&mut out, thorough),
         _ => {
             eprintln!("unknown stream {stream}");
             std::process::exit(2);
